@@ -783,6 +783,12 @@ impl World {
                 }
             }
             Polled::Ready(r) => {
+                // with only well-formed server bytes and no fault, unbind or last drop, the driver
+                // has no reason to return
+                let cause = self.fault_done.is_some() || self.server.saw_unbind || self.dropped_all || self.injected || self.io.lock().unwrap().shutdown;
+                if !cause {
+                    self.v("driver:exited-without-cause", format!("drive() returned {:?} although nothing ended the connection", r));
+                }
                 self.dstatus = DriverStatus::Done(r);
             }
             Polled::Panicked(m) => {
@@ -1205,6 +1211,9 @@ impl World {
                         } else if k != "PANIC" && !faulted && !self.abandoned_marker(marker) {
                             self.v(&format!("call:unexpected-error:{}", k), format!("client {} {} failed without any fault: {}", i, obs.call, m));
                         }
+                        if k != "PANIC" && k != "Timeout" && o.term && !self.abandoned_marker(marker) && self.routed_frames(marker) > plan.items.len() {
+                            self.v("term:delivered-response-lost", format!("client {} {}: every item and the final result had been delivered and routed, yet the call failed with {}", i, obs.call, m));
+                        }
                     }
                     other => self.v("call:wrong-shape", format!("client {} {} returned {:?}", i, obs.call, other)),
                 }
@@ -1403,6 +1412,15 @@ impl World {
             Ret::Err(k, m) => {
                 self.clients[i].sm.state = "Error";
                 self.clients[i].sm.failed = true;
+                if k != "Timeout" && k != "PANIC" && sm.state == "Active" && self.scn.oracles.term && !self.abandoned_marker(&sm.marker) {
+                    let routed = self.routed_frames(&sm.marker);
+                    if routed > sm.pos {
+                        self.v(
+                            "term:delivered-item-lost",
+                            format!("client {} next() failed with {} although {} frame(s) of its search had been delivered and routed and only {} were handed out", i, m, routed, sm.pos),
+                        );
+                    }
+                }
                 if k == "Timeout" {
                     let marker = sm.marker.clone();
                     self.judge_timeout(i, &marker, sm.timeout, obs);
@@ -1487,6 +1505,11 @@ impl World {
             }
         }
         false
+    }
+
+    /// response frames of the request(s) carrying `marker` that the driver has routed
+    fn routed_frames(&self, marker: &str) -> usize {
+        self.server.reqs.iter().filter(|r| r.marker == marker).map(|r| self.routed.get(&r.id).map_or(0, |x| x.0)).sum()
     }
 
     fn judge_timeout(&mut self, i: usize, marker: &str, timeout: Option<u64>, obs: &Obs) {
